@@ -156,8 +156,10 @@ def grep_forbidden():
 def run_proc(cmd, text, timeout):
     """run one side on a batch of op lines; returns (lines or None, note)"""
     try:
+        env = dict(os.environ, GOMEMLIMIT="4GiB")
+        env.setdefault("GOMAXPROCS", os.environ.get("VERIF_GOMAXPROCS", "1"))   # many processes run side by side
         p = subprocess.run(cmd, input=text, stdout=subprocess.PIPE, stderr=subprocess.PIPE, timeout=timeout, text=True,
-                           env=dict(os.environ, GOMEMLIMIT="4GiB"))
+                           env=env)
     except subprocess.TimeoutExpired:
         return None, "timeout"
     if p.returncode != 0:
@@ -188,18 +190,35 @@ def run_parallel(cmd, cases, chunk=None, timeout=120):
         outs = list(ex.map(lambda p: run_cases(cmd, p, timeout), parts))
     return [o for part in outs for o in part]
 
+def safe_pred(stream, ops, io):
+    """predicates are written for well-formed cases; a shrunk candidate may not be one (e.g. its `conn` line is gone)"""
+    if not stream.predicate:
+        return None
+    if any(l.split(" ", 1)[0] in ("no-conn", "no-broker", "bad-op", "badsize") for l in io):
+        return None        # not a well-formed case (only shrinking produces these)
+    try:
+        return stream.predicate(ops, io)
+    except (KeyError, IndexError, ValueError, AttributeError, TypeError):
+        return None
+
 class Stream:
     """one correspondence stream: same op lines through the real code (`drive …`) and the Lean model (`oracle …`)."""
     def __init__(self, name, comp, gen, predicate=None, nontrivial=None, canon=None,
-                 corpus=None, keep_prefix=1, timeout=180, drive_args=(), oracle_args=()):
+                 corpus=None, keep_prefix=1, timeout=180, drive_args=(), oracle_args=(), hint=None):
+        self.hint = hint   # hint(ops, impl_out) -> ops for the model (resolves nondeterminism the code is allowed)
         self.name, self.comp, self.drive_args, self.oracle_args = name, comp, list(drive_args), list(oracle_args)
         self.gen, self.predicate, self.nontrivial = gen, predicate, nontrivial
         self.canon = canon or (lambda ops, out: out)
         self.corpus, self.keep_prefix, self.timeout = corpus, keep_prefix, timeout
     def impl(self, cases):
         return run_parallel([drive_exe(self.comp)] + self.drive_args, cases, timeout=self.timeout)
-    def model(self, cases):
+    def model(self, cases, impl_outs=None):
+        if self.hint and impl_outs is not None:
+            cases = [self.hint(c, o) if len(o) == len(c) else c for c, o in zip(cases, impl_outs)]
         return run_parallel([oracle_exe(self.comp)] + self.oracle_args, cases, timeout=self.timeout)
+    def both(self, case):
+        io = self.impl([case])[0]
+        return io, self.model([case], [io])[0]
 
 def ddmin(ops, keep, fails):
     """delta-debug the op list (first `keep` lines fixed) while `fails(ops)` stays true."""
@@ -327,7 +346,7 @@ class Run:
         cases = corpus + [stream.gen(rng) for _ in range(n_cases)]
         t = time.time()
         impl = stream.impl(cases)
-        model = stream.model(cases)
+        model = stream.model(cases, impl)
         self.log(f"stream {stream.name}: {len(cases)} cases ({len(corpus)} corpus), "
                  f"{sum(len(c) for c in cases)} ops, {time.time()-t:.1f}s")
         st = dict(cases=len(cases), ops=sum(len(c) for c in cases), mismatches=0, predicate_failures=0,
@@ -348,7 +367,7 @@ class Run:
                 h = hashlib.sha1("\n".join(ops).encode()).hexdigest()
                 if h not in self._nontriv:
                     self._nontriv.add(h); st["nontrivial"] += 1
-            why = stream.predicate(ops, io) if stream.predicate else None
+            why = safe_pred(stream, ops, io)
             if why:
                 pred_fail.append((ops, why))
             elif io_c != mo_c:
@@ -366,12 +385,14 @@ class Run:
         for ops, why in sorted(pred_fail, key=lambda x: len(x[0])):
             classes.setdefault(re.sub(r"\d+", "N", why)[:80], (ops, why))
         for ops, why in list(classes.values())[:12]:
+            if self.known_finding(dict(stream=stream.name, ops=ops, impl=None, model=None, why=why, kind="predicate")):
+                st["known"] += 1       # recognised without shrinking
+                continue
             def fails(c):
-                return bool(stream.predicate(c, stream.impl([c])[0]))
+                return bool(safe_pred(stream, c, stream.impl([c])[0]))
             small = ddmin(ops, stream.keep_prefix, fails)
-            io = stream.impl([small])[0]
-            mo = stream.model([small])[0]
-            why = stream.predicate(small, io) or why
+            io, mo = stream.both(small)
+            why = safe_pred(stream, small, io) or why
             info = dict(stream=stream.name, ops=small, impl=io, model=mo, why=why, kind="predicate")
             k = self.known_finding(info)
             if k:
@@ -388,11 +409,11 @@ class Run:
             if reported >= 25:
                 break
             def differs(c):
-                a, b = stream.impl([c])[0], stream.model([c])[0]
+                a, b = stream.both(c)
                 return stream.canon(c, a) != stream.canon(c, b)
             small = ddmin(ops, stream.keep_prefix, differs)
-            io, mo = stream.impl([small])[0], stream.model([small])[0]
-            why = stream.predicate(small, io) if stream.predicate else None
+            io, mo = stream.both(small)
+            why = safe_pred(stream, small, io)
             info = dict(stream=stream.name, ops=small, impl=io, model=mo, why=why, kind="mismatch")
             k = self.known_finding(info)
             if k:
@@ -415,10 +436,12 @@ class Run:
         lines = [f"# property={self.prop} stream={stream.name} seed={self.seed} tier={self.tier}", f"# {headline}",
                  f"# replay: bin/check {self.prop} --replay <this file>",
                  f"#stream {stream.name}", "# columns: op | implementation | model"]
+        ca, cb = stream.canon(ops, io), stream.canon(ops, mo)
         for i, op in enumerate(ops):
             a = io[i] if i < len(io) else "<missing>"
             b = mo[i] if i < len(mo) else "<missing>"
-            mark = "" if a == b else "   <<< differs"
+            same = (ca[i] == cb[i]) if i < len(ca) and i < len(cb) else (a == b)
+            mark = "" if same else "   <<< differs"
             lines.append(f"#   {op}  |  {a}  |  {b}{mark}")
         return "\n".join(lines) + "\n" + "\n".join(ops) + "\n"
 
@@ -485,8 +508,8 @@ def replay(r, mod, path):
     s = streams[name]
     rc, out = build_go(r.log, list(mod.COMPS))
     rc2, out2 = build_lean(["oracle_" + c for c in mod.COMPS], r.log)
-    io, mo = s.impl([ops])[0], s.model([ops])[0]
-    why = s.predicate(ops, io) if s.predicate else None
+    io, mo = s.both(ops)
+    why = safe_pred(s, ops, io)
     print(r.render(s, ops, io, mo, f"predicate: {why or 'holds'}; outputs {'differ' if s.canon(ops, io) != s.canon(ops, mo) else 'agree'}"))
     if why:
         print(f"VIOLATION property={r.prop} replay={path}")
